@@ -620,6 +620,50 @@ def c09_10(ck, prog, rid='C09.10'):
             r.ok(key2)
 
 
+def c09_11(ck, prog, rid='C09.11'):
+    """The expiry timer wakes up for the slot that is due first."""
+    E = 'bus/expirelist.c'
+    r = ck.rule(rid, 'the next wake-up of an expiry list is the minimum over all slots that are kept: in the walk of '
+                'do_expiration_with_monotonic_time the candidate is stored into the running minimum only where it was '
+                'found smaller than the minimum (min_wait_time = to_wait lies behind min_wait_time > to_wait)', 'DOM',
+                breaks='the timer sleeps for the youngest call\'s remaining time: an older call is expired late by up to '
+                'a full reply_timeout, and during that time its late reply still passes as a requested reply', floor=1)
+    fn = prog.fn('do_expiration_with_monotonic_time', E)
+    mins = {}
+    for b, i, ev in fn.events():
+        for lhs, how, rhs in written_lvalues(ev):
+            if (is_ref(lhs) or 'k' not in lhs) and lhs.get('name') == 'min_wait_time' and how == '=' \
+                    and isinstance(rhs, dict) and is_ref(rhs):
+                mins[lhs['id']] = rhs['id']
+    if not mins:
+        raise AnalysisBroken('do_expiration: the running minimum (min_wait_time = <candidate>) was not found')
+
+    def akey(atom, resolve):
+        if atom[0] == 'cmp' and atom[1] in ('<', '<=') and is_ref(atom[2]) and is_ref(atom[3]):
+            ids = (atom[2].get('id'), atom[3].get('id'))
+            if any(m in ids for m in mins):
+                return ('ord', atom[1], ids[0], ids[1])
+        return None
+
+    def on_event(user, ev, ctx):
+        for lhs, how, rhs in written_lvalues(ev):
+            if (is_ref(lhs) or 'k' not in lhs) and lhs.get('id') in mins and how == '=' and isinstance(rhs, dict) \
+                    and is_ref(rhs):
+                m, c = lhs['id'], rhs['id']
+                at = ctx.atoms()
+                smaller = at.get(('ord', '<=', m, c)) is False or at.get(('ord', '<', c, m)) is True
+                if not smaller:
+                    ctx.report('min_wait_time is overwritten with %s on a path where %s was not found smaller: the '
+                               'minimum over the slots is lost' % (rhs['name'], rhs['name']), ev['line'],
+                               key=('not-min', ev['line']))
+        return user
+    ex = Explorer(fn, on_event=on_event, atom_key=akey, track=None, cap=300000).run()
+    if ex.reports:
+        r.from_reports(ex.reports, keyfn=lambda k, rep: 'do_expiration:minimum')
+    else:
+        r.ok('do_expiration:minimum')
+
+
 def run(ck):
     ck.explanation = (
         'Static path-sensitive rules over bus/bus.c (policy gate) and bus/connection.c (pending replies): a slot '
@@ -632,6 +676,7 @@ def run(ck):
                       'configuration (C06); histories with serial reuse across wrap-around')
     for v, prog in ck.programs(thorough_variants=('B',)):
         c09_10(ck, prog)
+        c09_11(ck, prog)
         from rules import listops
         rq = ck.rule('C09.9', 'the public list operations do what their names say (dbus/dbus-list.c; abstract interpretation of their CFG over every circular list of 0..3 links with equal and distinct data, every link / anchor / data argument, with and without memory for a new link): resulting order, return value, freed and detached links agree with the specification of append, prepend, insert_after, remove (first match), remove_last / find_last (last match), remove_link, clear, get/pop first/last (link), get_length, length_is_one', 'ABS', breaks='the pending-reply list drops or duplicates an entry when another one is removed or expires: a reply is refused as unrequested, or a slot is never freed', floor=15)
         listops.check(prog, rq)
